@@ -122,6 +122,8 @@ def run(index: RepoIndex, rep) -> None:
              'only for turn actions', floor=2)
     rep.rule('C08.R5', 'who may write the pose among registered transition functions', floor=3)
     rep.rule('C08.R6', 'Door.blocks_movement is `not is_open`', floor=3)
+    rep.rule('C08.R7', 'teleportation displaces the agent only from a Telepod, to another pod of '
+             'its colour (C11.R3)', floor=5)
     ev = Evaluator(index)
     om = ev.om
     acts = index.enum('Action')
@@ -259,6 +261,9 @@ def run(index: RepoIndex, rep) -> None:
                   f'Door[{st}].blocks_movement = {bm}',
                   f'a door with status {st} has blocks_movement={bm}; doors block unless open',
                   f'door {st}')
+
+    from .c11 import teleport
+    teleport(index, rep, 'C08.R7')
 
 
 def _f(text: str):
